@@ -23,6 +23,11 @@ class Obj(object):
     def __repr__(self):
         return '<o%d %s>' % (self.uid, self.id)
 
+    def __len__(self):
+        # library objects may be falsy (a Morph without targets, a Skin without influences):
+        # every third object is
+        return 0 if self.uid % 3 == 0 else 2
+
 
 ATTRS = ['geometries', 'controllers', 'animations', 'lights', 'cameras', 'images', 'effects',
          'materials', 'nodes', 'scenes']
